@@ -651,6 +651,156 @@ example :
     totalSpent 4 1 (ops.drop 1) (applyOp W (mk 4 (.approve 1 (2 ^ 256 - 1)))) = 35 := by
   decide
 
+/-- dependency facts (go-ethereum fork, re-read on every run): for all four call kinds the precompile frame is built by
+`NewPrecompile(caller, AccountRef(p.Address()), value, gas)` where `caller` is the frame that executed the CALL-family
+opcode — so `contract.Caller()` is the DIRECT caller (also for DELEGATECALL / CALLCODE: no `AsDelegate`) and
+`contract.Address()` is the precompile itself — and msg.value of a CALL is debited from `caller.Address()` -/
+theorem precompile_frame_is_direct_caller :
+    forkPrecompileArgs.map (fun p => (p.1, p.2.take 2)) =
+      [("Call", ["p", "caller"]), ("CallCode", ["p", "caller"]), ("DelegateCall", ["p", "caller"]), ("StaticCall", ["p", "caller"])] ∧
+    forkFrameArgs.take 3 = ["caller", "AccountRef(addrCopy)", "value"] ∧ forkAddrCopy = "p.Address()" ∧
+    forkCallTransfer.drop 1 = ["caller.Address()", "addr", "value"] ∧
+    forkPrecompileArgs.map (fun p => (p.1, p.2.getLast?)) = forkReadonlyArg.map (fun p => (p.1, some p.2)) := by decide
+
+/-- `handlerTransferShares(ctx, evm, valAddr, from, to, sharesInt)` as the source has it now: the delegation that is
+read for `from` is the one that is guarded (`LT(shares)` → error) and reduced (`Sub(shares)`), the one read or created for
+`to` is the one increased (`Add(shares)`) by the same amount (`shares := Dec(sharesInt)`), the self-transfer return comes
+before every mutation and mutates nothing, rewards are withdrawn for `from` and `to` only — the order `moveShares` has -/
+theorem transfer_handler_flow :
+    transferFlow =
+      [("params", "ctx,evm,valAddr,from,to,sharesInt"), ("get", "fromDel:from.Bytes():valAddr"), ("amount", "shares:sharesInt"),
+       ("guard-lt", "fromDel.GetShares().LT(shares)"), ("early-return", "from == to"),
+       ("withdraw", "sdk.AccAddress(from.Bytes()).String()"), ("get", "toDel:to.Bytes():valAddr"),
+       ("new", "toDel:sdk.AccAddress(to.Bytes()).String():sdkmath.LegacyZeroDec()"),
+       ("withdraw", "sdk.AccAddress(to.Bytes()).String()"), ("sub", "fromDel:shares"), ("remove", "fromDel"), ("set", "fromDel"),
+       ("add", "toDel:shares"), ("set", "toDel")] := by decide
+
+/-- FRAME: an account that is neither the direct caller nor named as `from` / `to` of a share transfer is left EXACTLY as
+it was by any call that the regenerated dispatcher lets through — same balance, same pending rewards (nothing is
+withdrawn on its behalf or redirected), same shares, same unbonding, same allowances granted -/
+theorem uninvolved_unchanged (dis : List (List Char)) (ro : Bool) (addr mid : List Char) (env : Env) (call : Call) (w w' : World)
+    (hv : call.isView = false) (h : (runGen dis ro addr mid env call w).out = .ok w') (a : Addr) (ha : a ≠ env.caller)
+    (hp : a ∉ call.parties) :
+    w'.bal a = w.bal a ∧ w'.rewards a = w.rewards a ∧ w'.shares a = w.shares a ∧ w'.unbonding a = w.unbonding a ∧
+    ∀ sp, w'.allow a sp = w.allow a sp := by
+  rw [runGen_refines _ _ _ _ _ _ _ hv] at h
+  unfold specRun at h
+  split at h
+  · cases h
+  · split at h
+    · cases h
+    · have hmove : ∀ (w0 w1 : World) p to s, moveShares w0 p to s = .ok w1 → a ≠ p → a ≠ to →
+          w1.bal a = w0.bal a ∧ w1.rewards a = w0.rewards a ∧ w1.shares a = w0.shares a ∧ w1.unbonding a = w0.unbonding a ∧
+          w1.allow = w0.allow := by
+        intro w0 w1 p to s hm h1 h2
+        unfold moveShares at hm
+        split at hm
+        · cases hm
+        · split at hm
+          · cases hm; exact ⟨rfl, rfl, rfl, rfl, rfl⟩
+          · cases hm; simp [claim, upd, h1, h2]
+      cases call with
+      | view n => simp [Call.isView] at hv
+      | transferFromShares f t s =>
+        simp only [Call.parties, List.mem_cons, List.not_mem_nil, or_false, not_or] at hp
+        simp only [specEffect, effect, ↓reduceIte] at h
+        split at h
+        · cases h
+        · obtain ⟨h1, h2, h3, h4, h5⟩ := hmove _ _ _ _ _ h hp.1 hp.2
+          refine ⟨h1, h2, h3, h4, fun sp => ?_⟩
+          rw [h5]; simp [upd2, hp.1]
+      | transferShares t s =>
+        simp only [Call.parties, List.mem_cons, List.not_mem_nil, or_false] at hp
+        simp only [specEffect, effect] at h
+        obtain ⟨h1, h2, h3, h4, h5⟩ := hmove _ _ _ _ _ h ha hp
+        exact ⟨h1, h2, h3, h4, fun sp => by rw [h5]⟩
+      | approve sp s =>
+        simp only [specEffect, effect] at h; cases h
+        exact ⟨rfl, rfl, rfl, rfl, fun sp' => by simp [upd2, ha]⟩
+      | executeClaim n => simp only [specEffect, effect] at h; cases h; exact ⟨rfl, rfl, rfl, rfl, fun _ => rfl⟩
+      | withdraw =>
+        simp only [specEffect, effect] at h
+        split at h
+        · cases h
+        · cases h; simp [claim, upd, ha]
+      | delegate x =>
+        simp only [specEffect, effect] at h
+        split at h
+        · cases h
+        · cases h; simp [claim, upd, ha]
+      | undelegate x =>
+        simp only [specEffect, effect] at h
+        split at h
+        · cases h
+        · cases h; simp [claim, upd, ha]
+      | redelegate x =>
+        simp only [specEffect, effect] at h
+        split at h
+        · cases h
+        · cases h; simp [claim, upd, ha]
+      | crossChain x y r =>
+        simp only [specEffect, effect] at h
+        split at h
+        · cases h
+        · cases h; simp [upd, ha]
+      | bridgeCall r t v =>
+        simp only [specEffect, effect] at h
+        split at h
+        · cases h
+        · cases h; simp [upd, ha]
+      | increaseFee i f =>
+        simp only [specEffect, effect] at h
+        split at h
+        · cases h
+        · cases h; simp [upd, ha]
+      | cancelSend i =>
+        simp only [specEffect, effect] at h
+        split at h
+        · cases h
+        · split at h
+          · cases h
+          · cases h; simp [upd, ha]
+
+/-- HISTORIES through anything but a plain CALL are inert: any list of STATICCALL / DELEGATECALL / CALLCODE calls of any
+methods by anybody leaves the whole world exactly as it was -/
+theorem history_non_call_kinds_inert (ops : List HOp) (w : World) (hk : ∀ o ∈ ops, o.kind ≠ .call) : runH ops w = w := by
+  induction ops generalizing w with
+  | nil => rfl
+  | cons o r ih =>
+    have hstep : applyOp w o = w := by
+      rcases applyOp_spec w o with ⟨_, hw⟩ | ⟨_, _, hro, _⟩ | ⟨_, hw, _⟩
+      · exact hw
+      · exfalso
+        have hc := call_kind_readonly
+        have := hk o (List.mem_cons_self ..)
+        cases hkind : o.kind with
+        | call => exact this hkind
+        | staticcall => rw [hkind, hc.1] at hro; cases hro
+        | delegatecall => rw [hkind, hc.2.1] at hro; cases hro
+        | callcode => rw [hkind, hc.2.2.1] at hro; cases hro
+      · exact hw
+    simp only [runH, List.foldl_cons, hstep]
+    exact ih w (fun o' ho' => hk o' (List.mem_cons_of_mem _ ho'))
+
+/-- HISTORIES under a switch that disables every called address / method (an entry anywhere in each list) are inert -/
+theorem history_disabled_inert (ops : List HOp) (w : World)
+    (hd : ∀ o ∈ ops, ∃ d ∈ o.dis, lower d = lower o.addr ∨ lower d = lower o.addr ++ '/' :: o.mid) : runH ops w = w := by
+  induction ops generalizing w with
+  | nil => rfl
+  | cons o r ih =>
+    have hstep : applyOp w o = w := by
+      rcases applyOp_spec w o with ⟨_, hw⟩ | ⟨_, _, _, hdis⟩ | ⟨_, hw, _⟩
+      · exact hw
+      · exfalso
+        obtain ⟨d, hmem, hm⟩ := hd o (List.mem_cons_self ..)
+        have : specDisabled o.dis o.addr o.mid = true := by
+          simp only [specDisabled, List.any_eq_true, Bool.or_eq_true, beq_iff_eq]
+          exact ⟨d, hmem, hm⟩
+        rw [this] at hdis; cases hdis
+      · exact hw
+    simp only [runH, List.foldl_cons, hstep]
+    exact ih w (fun o' ho' => hd o' (List.mem_cons_of_mem _ ho'))
+
 /-! ### static context that is not the direct call (full-strength statement fails on the fork; see fixes/C10-known.json) -/
 open FxVerif.Model.C09 in
 /-- the frame model of C09 with the fork's rule "readonly = (direct kind ≠ CALL)": a contract entered through STATICCALL
